@@ -6,7 +6,7 @@ export CARGO_NET_OFFLINE=true
 python3 gen/s4gen.py >/dev/null || true
 # every property module (and so every model and lemma file), so that no check pays for a first Lean build
 (cd lean && lake build $(ls S4V/Props/*.lean | sed 's#/#.#g; s#\.lean$##') || echo "setup: some property modules failed to build (their checks will report it)")
-(cd lean && for t in S4V drv drv_walk drv_print drv_cli drv_boxp drv_stream drv_time drv_patsel drv_frender drv_regex drv_layout drv_srch drv_jrender drv_wproto drv_tarm drv_fwalk drv_summ drv_cap drv_memgeo drv_regexe2e drv_lskel drv_evtxr drv_gskel drv_cskel drv_gskel drv_evtxr drv_lskel drv_jskel; do lake build $t || echo "setup: lake build $t failed (its checks will report it)"; done)
+(cd lean && for t in S4V drv drv_walk drv_print drv_cli drv_boxp drv_stream drv_time drv_patsel drv_frender drv_regex drv_layout drv_srch drv_jrender drv_wproto drv_tarm drv_fwalk drv_summ drv_cap drv_memgeo drv_regexe2e drv_lskel drv_evtxr drv_gskel drv_cskel drv_gskel drv_evtxr drv_lskel drv_jskel drv_wskel; do lake build $t || echo "setup: lake build $t failed (its checks will report it)"; done)
 python3 - <<'PY'
 import sys
 sys.path.insert(0, '.')
